@@ -6,15 +6,6 @@ import BiscuitModel.Props.C04
 namespace Biscuit.C07
 open Biscuit Biscuit.C02 Biscuit.C01
 
-/-- `Biscuit::append_third_party`: the response (block bytes + external signature) is accepted
-    only for the key the caller expects and only if the signature verifies over the block bytes
-    and the signature of the block the token currently ends with -/
-def appendThirdParty (S : Scheme) (c : Container) (expected : PubKey) (data : Bytes) (resp : ExtSig)
-    (nextAlg : Nat) (nextSk : Bytes) : Option Container :=
-  if resp.key = expected ∧ S.verify resp.key (externalPayload ⟨data, c.lastBlock.nextKey, [], some resp, some Gen.thirdPartySignatureVersion⟩ c.lastBlock.sig) resp.sig = true
-  then appendBlock S c nextAlg nextSk data (some resp) none
-  else none
-
 /-- **A third-party block is accepted into a token only with a valid signature by the stated
     external key over its payload and over the signature of the block it is appended after.** -/
 theorem append3p_checks (S : Scheme) (c c' : Container) (expected : PubKey) (data : Bytes) (resp : ExtSig)
